@@ -5,6 +5,7 @@ import (
 	"sort"
 	"strings"
 	"sync"
+	"sync/atomic"
 
 	"capnproto.org/go/capnp/v3"
 	"capnproto.org/go/capnp/v3/rpc"
@@ -147,6 +148,7 @@ type appCall struct {
 	want     *wantRet
 	expectFail bool
 	busy       int32 // an asynchronous sender is still using the answer
+	pending    int32 // 1 while an asynchronous sender goroutine owns ans/release/cancel
 	relT0, relT1 int64
 	// result bookkeeping
 	resUID uint64
@@ -392,4 +394,13 @@ func pathStr(p []int) string {
 		fmt.Fprintf(&sb, "/%d", f)
 	}
 	return sb.String()
+}
+
+// answer returns the call's Answer once it has been issued (nil while an
+// asynchronous sender still owns the record).
+func (ac *appCall) answer() *capnp.Answer {
+	if atomic.LoadInt32(&ac.pending) != 0 {
+		return nil
+	}
+	return ac.ans
 }
